@@ -488,6 +488,24 @@ func checkWire(c *core.Check, which string) {
 	caseN := 0
 	packOps := map[string][]int{}
 	packBase := map[string]aspec.Base{}
+	// packs of hand-made operations in dialect forms the generator may refuse as a whole (then they are left out)
+	extraOps := map[string]func(a *aspec.ASpec) []wireOp{
+		// a component response used for `default` by one operation and, through an alias, under a fixed status by
+		// another (refused today: "multiple usages"; if accepted, the documented 404 must be written as 404)
+		"dxaliasmix": func(a *aspec.ASpec) []wireOp {
+			str := aspec.Schema{K: "string"}
+			a.Responses = append(a.Responses, aspec.NamedResponse{Name: "Failure", R: &aspec.Response{Desc: "failure", Body: aspec.Body{K: "json", Schema: &aspec.Schema{K: "ref", To: "Thing"}}}},
+				aspec.NamedResponse{Name: "NotFoundAlias", Alias: "Failure"})
+			ok := aspec.RespRef{Status: "200", R: &aspec.Response{Desc: "ok", Body: aspec.Body{K: "json", Schema: &str}}}
+			t1 := []aspec.Seg{{K: "lit", S: "am1"}}
+			o1 := simpleOp("GET", t1)
+			o1.Responses = []aspec.RespRef{ok, {Status: "default", Ref: "Failure"}}
+			t2 := []aspec.Seg{{K: "lit", S: "am2"}, {K: "var", S: "p1"}}
+			o2 := simpleOp("GET", t2)
+			o2.Responses = []aspec.RespRef{ok, {Status: "404", Ref: "NotFoundAlias"}}
+			return []wireOp{{tmpl: t1, op: o1}, {tmpl: t2, op: o2, decls: []decl{{In: "path", Name: "p1", Type: "string", Req: true}}}}
+		},
+	}
 	addPack := func(id string, idxs []int, base aspec.Base) {
 		packOps[id], packBase[id] = idxs, base
 		a := wireCarrier(id, base)
@@ -497,9 +515,19 @@ func checkWire(c *core.Check, which string) {
 		if base.Form == "none" {
 			bsegs = []string{}
 		}
+		var ws []wireOp
 		for _, k := range idxs {
 			w := randWireOp(a, k, rand.New(rand.NewSource(cands[k].seed)))
 			a.Paths = append(a.Paths, withSibling(w, k))
+			ws = append(ws, w)
+		}
+		if f := extraOps[id]; f != nil {
+			for _, w := range f(a) {
+				a.Paths = append(a.Paths, aspec.PathItem{Template: w.tmpl, Ops: []aspec.Op{w.op}})
+				ws = append(ws, w)
+			}
+		}
+		for _, w := range ws {
 			opID := w.op.Method + " " + aspec.TemplateString(w.tmpl)
 			var resps []any
 			hasDefault := false
@@ -581,6 +609,9 @@ func checkWire(c *core.Check, which string) {
 		}
 		addPack(fmt.Sprintf("wr%d", start/perPkg), good[start:end], bases[(start/perPkg)%len(bases)])
 	}
+	for id := range extraOps {
+		addPack(id, nil, aspec.Base{Form: "none"})
+	}
 	sc, err := core.BuildScratch(jobs, false)
 	if err != nil {
 		c.HarnessError(err.Error())
@@ -597,7 +628,7 @@ func checkWire(c *core.Check, which string) {
 					dup = true
 				}
 			}
-			if !dup {
+			if !dup && !strings.HasPrefix(g.Pkg, "dx") {
 				failedPacks = append(failedPacks, g.Pkg)
 			}
 			continue
